@@ -14,6 +14,7 @@ Obligations at the return of _splice, per path:
              (rebuild(), extend() onto a clean block, the in-place loop from the first changed position)
   sizes    : every block's size / last_newline_index caches were rebuilt, or patched (both fields), since then
   len      : _len == old _len + len(inserted) - len(removed range)                              (linear forms)
+  detach   : the handles of exactly the removed ranges were set to None (per block, as ranges over the old token lists)
 rebuild / extend / from_tokens / _build_blocks are primitives here; their bodies are the business of POS-FORM and
 BUILD-PART.  Unsupported syntax is an analysis error (exit 2), never a pass.
 """
@@ -256,6 +257,7 @@ class SeqInterp:
         self.calls: list[str] = []
         self.trace: list[str] = []
         self.fresh = 0
+        self.cleared: list[tuple[str, Any, Any]] = []      # (block, lo, hi): handles set to None over tokens[lo:hi] as they were then
 
     # -- nondeterminism ---------------------------------------------------------
     def choose(self, n: int, label: str) -> int:
@@ -489,7 +491,12 @@ class SeqInterp:
             if attr != 'store_handle':
                 raise self.err(node, f'write to token attribute {attr}')
             if v is None:
-                return                      # detaching a token: TS-DETACH's business
+                if base.block is not None:
+                    if isinstance(base.idx, RangeVar):
+                        self.cleared.append((base.block.name, base.idx.lo, base.idx.hi))
+                    elif base.idx is None:
+                        self.cleared.append((base.block.name, 0, seq_len(base.block.tokens)))
+                return
             if not isinstance(v, HandleV):
                 raise self.err(node, 'store_handle assigned something other than None / _StoreHandle(...)')
             self.rehandle(base, v, node)
@@ -958,6 +965,18 @@ def rule_ts_seq(ctx: RuleContext, ts: TS, rid: str, max_blocks: int = 4, kinds: 
                 n_refused += 1
             elif problem is None:
                 problem = _judge(store, expected, add(add(len0, seq_len(ins)), removed, -1))
+                if problem is None:
+                    if si == ei:
+                        want_cleared = {(names[si], sj, ej)}
+                    else:
+                        want_cleared = {(names[si], sj, seq_len(before[si])), (names[ei], 0, ej)} | {
+                            (names[k], 0, seq_len(before[k])) for k in range(si + 1, ei)}
+                    got_cleared = {(b, (0 if lo is None else lo), hi) for b, lo, hi in it.cleared}
+                    missing = want_cleared - got_cleared
+                    if missing:
+                        b, lo, hi = sorted(missing, key=repr)[0]
+                        problem = ('detach', f'the removed tokens {b}[{lo!r}:{hi!r}] keep their store handles (cleared ranges: '
+                                             f'{sorted((x[0], repr(x[1]), repr(x[2])) for x in got_cleared)}): a removed token still claims to be in the store')
             if problem is not None:
                 kind, msg = problem
                 if kind not in found:
@@ -976,7 +995,7 @@ def rule_ts_seq(ctx: RuleContext, ts: TS, rid: str, max_blocks: int = 4, kinds: 
             raise AnalysisError(f'TS-SEQ: {need} was never reached from _splice in any explored path (anchor moved?)')
     if n_paths < 100:
         raise AnalysisError(f'TS-SEQ: only {n_paths} paths explored (>= 100 on the confirmed tree)')
-    for kind in kinds or ['sequence', 'index', 'handles', 'sizes', 'len']:
+    for kind in kinds or ['sequence', 'index', 'handles', 'sizes', 'len', 'detach']:
         if kind in found:
             msg, path = found[kind]
             ctx.fail(rid, 'token_store:TokenStore._splice', kind, msg, f'{ts.m.relpath}:{entry.node.lineno}', path)
